@@ -94,7 +94,7 @@ func cfgC12(tier string) e1Cfg {
 	t := baseTxn()
 	t.PKeyOps, t.PInsert, t.PUpdate, t.PDelete, t.PAbort, t.MaxOps, t.MaxLive, t.SwallowPct, t.DupDelPct = 35, 25, 25, 15, 15, 6, 40, 35, 15
 	return e1Cfg{Prop: "C12", Kinds: []Kind{KInt, KString, KBool}, KeyedPct: 100, LayoutPct: 12, Steps: steps(tier, 220, 700), Pool: "small", Txn: t, DumpEvery: 1,
-		Oracles: oracleSet("keys", "live"), Caps: []int{1, 64, 1000}, PRestore: 1, Interlope: true}
+		Oracles: oracleSet("keys", "live"), Caps: []int{1, 64, 1000}, PRestore: 1, Interlope: true, PDelAll: 4}
 }
 
 func cfgC16(tier string) e1Cfg {
@@ -134,7 +134,7 @@ func init() {
 			map[string]int64{"restores": 60, "restored_rows": 1000}},
 		{"C11", cfgC11, 1600, 40000, "one case = one seeded insert/delete-heavy history over fragmented fill patterns (dense fill then sparse survivors around word and block boundaries); every offset returned by an insert is checked against the model's live set and the transaction's own reservations, after every step Range/Count/Txn.Count must equal the live set and every cell of a new row must be what its insert stored (anything else is stale data); non-trivial = at least 3 committed transactions",
 			map[string]int64{"txn_committed": 500}},
-		{"C12", cfgC12, 3200, 48000, "one case = one seeded history of InsertKey/UpsertKey/QueryKey/DeleteKey/SetKey over a 10-key alphabet; every return value is compared with the model's key table at issue time and after every step every key of the alphabet is looked up and rows are grouped by key; non-trivial = at least 3 committed transactions",
+		{"C12", cfgC12, 3200, 48000, "one case = one seeded history of InsertKey/UpsertKey/QueryKey/DeleteKey/SetKey over a 10-key alphabet; every return value is compared with the model's key table at issue time and after every step every key of the alphabet is looked up and rows are grouped by key; 4 % of the steps are a random filter chain followed by Txn.DeleteAll or (one in three) by DeleteKey of an existing key, which must succeed whatever the selection is; non-trivial = at least 3 committed transactions",
 			map[string]int64{"key_lookups": 2000}},
 		{"C16", cfgC16, 3200, 48000, "one case = one seeded history over a 6-string alphabet with up to 3 sorted indexes created before or after the data; after every step the Ascend sequence (plain and under a random filter chain) must be a permutation of the selected rows holding a value, in non-decreasing order of the values read at the callbacks; non-trivial = at least 3 committed transactions",
 			map[string]int64{"ascend_rows": 2000, "ascend_equal_neighbours": 100}},
